@@ -301,6 +301,12 @@ class C20(Prop):
                 program = prog
             if rng.random() < 0.6:
                 program = prefixify(rng, program)
+            root = program[-1]
+            outs = list(dict.fromkeys(o for n in root["nodes"] if n["kind"] == "fn" for o in n.get("dataOuts", [])))
+            if outs and rng.random() < 0.25 and not any(n["kind"] in ("route", "ifelse") for n in root["nodes"]):
+                # the drawn graph is DERIVED (select) from a graph that was itself drawn before: its inputs are its own
+                program = copy.deepcopy(program)
+                program[-1]["selected"] = rng.sample(outs, 1)
             yield {"program": program}
 
     def impl(self, case: dict) -> Any:
@@ -312,6 +318,12 @@ class C20(Prop):
         except Exception as e:  # noqa: BLE001
             return {"error": f"{type(e).__name__}: {e}"[:300]}
         flat = flat_payload(fg)
+        spec = g.inputs
+        fspec = fg.graph.get("input_spec", {})
+        spec_diff = None
+        if (list(fspec.get("required", ())), list(fspec.get("optional", ())), sorted(fspec.get("bound", {}))) != (list(spec.required), list(spec.optional), sorted(spec.bound)):
+            spec_diff = f"flattened graph carries inputs {fspec}, the graph's own inputs are required={spec.required} optional={spec.optional} bound={sorted(spec.bound)}"
+        drawn_inputs = None
         containers = list(r["meta"].get("expandableNodes", []))
         checks = []
         keys = []
@@ -339,13 +351,15 @@ class C20(Prop):
                 checks.append({"state": st, "sep": sep, "nodes": ns, "edges": es})
                 keys.append(f"mermaid:depth={depth}|sep:{int(sep)}")
         resp = self.driver().ask({"op": "viz", "flat": flat, "checks": checks})
-        return {"flat": [[n["id"], n["parent"]] for n in flat], "keys": keys, "extra_edge_states": extra, "containers": containers,
+        return {"spec_diff": spec_diff, "flat": [[n["id"], n["parent"]] for n in flat], "keys": keys, "extra_edge_states": extra, "containers": containers,
                 "results": resp["results"], "validStates": resp["validStates"], "n_deps": len(resp["deps"]),
                 "sizes": [[len(c["nodes"]), len(c["edges"])] for c in checks]}
 
     def oracle(self, case: dict, obs: Any) -> str | None:
         if "error" in obs:
             return f"diagram data could not be produced for a valid graph: {obs['error']}"
+        if obs.get("spec_diff"):
+            return obs["spec_diff"]
         if obs["extra_edge_states"]:
             return f"states with edges but no nodes: {obs['extra_edge_states']}"
         # flattening: every nested node exactly once, under its parent
